@@ -436,6 +436,7 @@ def gen_alg_spec(g, name=None, allow_seed_none=False):
     spec['domain_alg'] = g.choice(['eg', 'eg', 'none'])
   if name == 'hyp':
     spec['clusters'] = g.randint(1, 4)
+    spec['dup_clusters'] = g.chance(0.3)
   if name == 'apfl':
     spec['coef'] = g.choice([0.0, 0.3, 0.5, 1.0])
     spec['copt'] = g.choice(['sgd', 'sgd_big', 'momentum', 'adam'])
@@ -492,6 +493,8 @@ def build_algorithm(spec, backend='jit', fresh=False):
 
 def init_state(spec, alg, g):
   if spec['name'] == 'hyp':
+    if spec.get('dup_clusters'):     # all clusters warm-started from one model: exact ties in the assignment step
+      return alg.init([init_params(spec['model'], spec['d'], g.sub('c', 0)) for _ in range(spec['clusters'])])
     return alg.init([init_params(spec['model'], spec['d'], g.sub('c', i)) for i in range(spec['clusters'])])
   return alg.init(init_params(spec['model'], spec['d'], g))
 
